@@ -36,7 +36,7 @@ FALSE = ('lit', 'False', False)
 
 class Gen:
     def __init__(self, rng, schema=None, aliases=(), max_depth=4, funs=True, quants=True, consts=True,
-                 floats=True, opaque=True, small=False):
+                 floats=True, opaque=True, small=False, unique_vars=False, var_pool=None):
         self.rng = rng
         self.schema = schema or DEFAULT_SCHEMA
         self.aliases = list(aliases)
@@ -48,6 +48,9 @@ class Gen:
         self.opaque = opaque
         self.small = small
         self._fresh = 0
+        self.unique_vars = unique_vars      # never reuse a quantified variable name, not even in sibling quantifiers
+        self._used = set()
+        self.var_pool = var_pool or ['i', 'j', 'k', 'v', 'w']
 
     # ---- references ------------------------------------------------------------------------------------
     def paths(self, want, bound):
@@ -184,8 +187,9 @@ class Gen:
         return ('call', 'str', [self.prim(depth - 1, bound)[0]])
 
     def fresh_var(self, bound):
-        for v in ['i', 'j', 'k', 'v', 'w']:
-            if v not in bound and v not in self.aliases:
+        for v in self.var_pool:
+            if v not in bound and v not in self.aliases and not (self.unique_vars and v in self._used):
+                self._used.add(v)
                 return v
         self._fresh += 1
         return f'q{self._fresh}'
